@@ -111,4 +111,51 @@ def main(tier):
     wiring.check_diff_kernel(run, fx, k)
     c10.check_year_month_refusal(run, fx, ev)
     units.report(run, fx, "C18")
+    # field resolution checks the day against the year, month of the same record
+    rule = "R2.day-range-uses-record-year-and-month"
+    run.rule(rule, "in ResolvedCalendarFields::try_from_partial the ISO day-range helpers receive the year resolved from the "
+                   "record (EraYear::try_from_partial_date(partial).year), the month resolved from the record and the record's "
+                   "day - for every resolution type (a month-day record with a year is regulated in THAT year)")
+    ftp = fx["temporal_rs"].fn("temporal_rs::builtins::core::calendar::types::ResolvedCalendarFields::try_from_partial")
+    if ftp is None:
+        run.anchor_missing(rule, "try_from_partial", "not found")
+    else:
+        ev = H.Evaluator(fx)
+        ev.inline = lambda p: False
+        ev.call_fn(ftp, [H.Sym("param", (p["name"],)) for p in ftp.params])
+        sites = [c for c in ev.trace if str(c.parts[0]).endswith(("::constrain_iso_day", "::is_valid_iso_day"))]
+        if not sites:
+            run.anchor_missing(rule, "sites", "no day-range helper call found", ftp.loc)
+        for k, c in enumerate(sites):
+            a = [show(x) for x in c.parts[1]]
+            ok = len(a) == 3 and a[0] == "try[EraYear::try_from_partial_date($partial_date)].year" \
+                and a[1].startswith("MonthCode::to_month_integer(try[types::resolve_iso_month($partial_date") \
+                and a[2].startswith("try[types::resolve_day($partial_date.day")
+            run.check(ok, rule, "%s#%d" % (str(c.parts[0]).rsplit("::", 1)[-1], k + 1), "year, month, day of the record",
+                      "%s is called with (%s): expected the record's own resolved year, month and day" %
+                      (str(c.parts[0]).rsplit("::", 1)[-1], ", ".join(x[:70] for x in a)), ftp.loc)
+    # year-month arithmetic never looks at the hidden reference day
+    rule = "R2.year-month-arithmetic-ignores-reference-day"
+    run.rule(rule, "PlainYearMonth::add_or_subtract_duration and PlainYearMonth::diff build their intermediate dates from the "
+                   "year-month's fields (day 1), never from the stored ISO reference day: the hidden day of a year-month built "
+                   "with an explicit reference must not influence arithmetic")
+    for suffix in ("year_month::PlainYearMonth::add_or_subtract_duration", "year_month::PlainYearMonth::diff"):
+        fym = fx["temporal_rs"].fn("temporal_rs::builtins::core::" + suffix)
+        if fym is None:
+            run.anchor_missing(rule, suffix, "not found")
+            continue
+        ev = H.Evaluator(fx)
+        ev.inline = lambda p: False
+        try:
+            ev.call_fn(fym, [H.Sym("param", (p["name"],)) for p in fym.params])
+        except (H.Panic, H.Budget):
+            pass
+        reads = []
+        for c in ev.trace:
+            for a in c.parts[1]:
+                sa = show(a)
+                if "$self.iso.day" in sa or "$other.iso.day" in sa or "iso_day($self)" in sa or "iso_day($other)" in sa:
+                    reads.append("%s(%s)" % (str(c.parts[0]).rsplit("::", 1)[-1], sa[:60]))
+        run.check(not reads and len(ev.trace) > 0, rule, suffix, "%d calls, none reads the reference day" % len(ev.trace),
+                  "%s passes the stored ISO reference day into %s" % (fym.name, reads[:3]), fym.loc)
     return run.finish(EXPLANATION)
